@@ -1,5 +1,6 @@
 import PV.Model.Sexp
 import PV.Model.CCode
+import PV.Model.CCodeFrag
 import PV.Generated.Prec
 /- Driver operations for the C code mapper model (C14). -/
 namespace PV.Driver
@@ -49,6 +50,22 @@ def intEnvOfSexp? : Sexp → Option Env
     | _ => none
   | _ => none
 
+def c14ValToSexp : Option C14.CVal → Sexp
+  | none => .list [.atom "none"]
+  | some (.i n) => .list [.atom "int", Sexp.ofInt n]
+  | some (.b x) => .list [.atom "bool", Sexp.ofBool x]
+
+/-- does the text contain parts the C reading does not model (`pow(…)`, other calls, floats, …)?
+Then nothing is claimed about the C TYPE of the value (`c ? 12 : pow(x, 3)` is a double). -/
+def c14Opaque : Doc → Bool
+  | .atom _ => true
+  | .paren d => c14Opaque d
+  | .bin l _ r => c14Opaque l || c14Opaque r
+  | .un _ d => c14Opaque d
+  | .tern c t e => c14Opaque c || c14Opaque t || c14Opaque e
+  | .call2 _ a b => c14Opaque a || c14Opaque b
+  | _ => false
+
 def handleCCode : Sexp → Option Sexp
   | .list [.atom "ccode-hist", .atom rev, .atom pfx, .list ops] =>
     match ops.mapM copnOfSexp? with
@@ -63,7 +80,11 @@ def handleCCode : Sexp → Option Sexp
     match intEnvOfSexp? env, Expr.ofSexp? e with
     | some env, some e =>
       match ccode Generated.printPrec {} e with
-      | .ok (d, _, _) => some (.list [Sexp.str d.render, optIntToSexp' (denC env d)])
+      | .ok (d, _, _) =>
+        -- … and whether `e` is in the proved fragment `cFrag`, with its reference meaning `denV`
+        some (.list [Sexp.str d.render, optIntToSexp' (denC env d),
+          .list [.atom "frag", Sexp.ofBool (C14.cFrag e)], c14ValToSexp (C14.denV env e),
+          .list [.atom "opaque", Sexp.ofBool (c14Opaque d)]])
       | .error err => some (ccodeErrToSexp err)
     | _, _ => some (.list [.atom "bad-op", Sexp.str "ccode-denc"])
   | _ => none
